@@ -61,3 +61,314 @@ Proof.
   - discriminate.
   - inversion H; subst. eauto.
 Qed.
+
+(* ---------- no line ever answers "out of fuel" ---------- *)
+From DV Require Import Proofs.NameValid Proofs.NameText.
+
+Definition NoFuel {A} (r : res A) : Prop := r <> Internal iFuelZ.
+
+Lemma nf_bind {A B} (r : res A) (f : A -> res B) :
+  NoFuel r -> (forall a, r = Ok a -> NoFuel (f a)) -> NoFuel (bind r f).
+Proof.
+  unfold NoFuel. destruct r as [a|e|e]; cbn; intros H Hf; [apply Hf; reflexivity|discriminate|].
+  intros X. apply H. inversion X. reflexivity.
+Qed.
+
+Lemma nf_ok {A} (a : A) : NoFuel (Ok a). Proof. discriminate. Qed.
+Lemma nf_lib {A} e : NoFuel (@Lib A e). Proof. discriminate. Qed.
+
+Ltac nf_step :=
+  first
+  [ apply nf_ok | apply nf_lib
+  | lazymatch goal with |- NoFuel (bind _ _) => apply nf_bind; [|intros ? ?] end
+  | lazymatch goal with
+    | |- NoFuel (match ?x with _ => _ end) => destruct x eqn:?
+    end
+  | lazymatch goal with |- NoFuel (Internal ?k) => unfold NoFuel; try unfold k; discriminate end ].
+
+Lemma ttl_loop_nf : forall t total cur need, NoFuel (ttl_loop t total cur need).
+Proof. induction t as [|c t IH]; intros; cbn [ttl_loop]; repeat nf_step; apply IH. Qed.
+
+Lemma ttl_nf t : NoFuel (ttl_from_text t).
+Proof. unfold ttl_from_text. repeat nf_step. apply ttl_loop_nf. Qed.
+
+Lemma ttl_not_internal t e : ttl_from_text t <> Internal e.
+Proof.
+  assert (H : forall t total cur need e, ttl_loop t total cur need <> Internal e).
+  { induction t0 as [|c0 t0 IH]; intros; cbn [ttl_loop];
+      repeat match goal with |- (if ?b then _ else _) <> _ => destruct b | |- Ok _ <> _ => discriminate
+                        | |- Lib _ <> _ => discriminate end; apply IH. }
+  unfold ttl_from_text. destruct t as [|c0 t0]; cbn [bind]; [discriminate|].
+  destruct (all_digits (c0 :: t0)); cbn [bind].
+  - destruct (_ || _); discriminate.
+  - destruct (ttl_loop (c0 :: t0) 0 0 true) eqn:E; cbn [bind]; try discriminate.
+    + destruct (_ || _); discriminate.
+    + exfalso. eapply H; eauto.
+Qed.
+
+Lemma py_int_nf cur : NoFuel (py_int cur).
+Proof. unfold py_int. repeat nf_step. Qed.
+
+Lemma grange_loop_nf : forall t a b cur st, NoFuel (grange_loop t a b cur st).
+Proof.
+  induction t as [|c t IH]; intros; cbn [grange_loop]; repeat nf_step; try apply py_int_nf; apply IH.
+Qed.
+
+Lemma grange_nf t : NoFuel (grange_from_text t).
+Proof.
+  unfold grange_from_text. repeat nf_step; try apply grange_loop_nf; try apply py_int_nf.
+Qed.
+
+Lemma mk_name_nf n : NoFuel (mk_name n).
+Proof. unfold NoFuel. apply mk_name_never_internal. Qed.
+
+(* lift_name of a computation that has no Internal result and only the listed library errors *)
+Lemma lift_name_nf {A} esc (r : res A) :
+  (forall e, r <> Internal e) -> (forall e, r = Lib e -> e <> iFuelZ) -> NoFuel (lift_name esc r).
+Proof.
+  intros Hi Hl. unfold lift_name, NoFuel. destruct r as [a|e|e]; [discriminate| |exfalso; eapply Hi; reflexivity].
+  unfold name_err. repeat match goal with |- (if ?b then _ else _) <> _ => destruct b end; try discriminate.
+  intros H. inversion H. eapply Hl; eauto.
+Qed.
+
+Lemma mk_name_lib n e : mk_name n = Lib e -> e <> iFuelZ.
+Proof.
+  unfold mk_name. destruct (validate_labels n) as [[]|e0|e0] eqn:E; try discriminate.
+  intros H. inversion H; subst. apply validate_error in E.
+  destruct E as [[-> _]|[[-> _]|[-> _]]]; discriminate.
+Qed.
+
+Lemma from_text_lib v o e : NameM.from_text v o = Lib e -> e <> iFuelZ.
+Proof.
+  assert (Hft : forall t L lab esc ed tot e, ft_loop t L lab esc ed tot = Lib e -> e <> iFuelZ).
+  { induction t as [|c t IH]; intros L lab esc ed tot e0; cbn [ft_loop]; [discriminate|].
+    repeat match goal with
+           | |- (if ?b then _ else _) = _ -> _ => destruct b
+           | |- match ?x with _ => _ end = _ -> _ => destruct x
+           end; try (intros H; inversion H; discriminate); apply IH. }
+  unfold NameM.from_text.
+  set (text := match v with [64] => [] | _ => v end).
+  assert (Hfin : forall labels, mk_name (if negb (ends_with_root labels)
+                                          then match o with Some o0 => labels ++ o0 | None => labels end
+                                          else labels) = Lib e -> e <> iFuelZ) by (intros; eapply mk_name_lib; eauto).
+  destruct (list_eq_dec Z.eq_dec text [46]) as [->|H46].
+  { intros H. eapply mk_name_lib; eauto. }
+  rewrite dot_match by assumption.
+  destruct text as [|c0 t0]; cbn [bind]; [apply Hfin|].
+  destruct (ft_loop (c0 :: t0) [] [] false 0%nat 0) as [[[labels lab] esc]|e0|e0] eqn:E; cbn [bind].
+  - destruct esc; cbn [bind]; [intros H; inversion H; discriminate|apply Hfin].
+  - intros H. inversion H; subst. eapply Hft; eauto.
+  - discriminate.
+Qed.
+
+Lemma relativize_nf esc n o : NoFuel (lift_name esc (relativize n o)).
+Proof.
+  apply lift_name_nf.
+  - intros e. unfold relativize. destruct (is_subdomain n o); [apply mk_name_never_internal|discriminate].
+  - intros e. unfold relativize. destruct (is_subdomain n o); [apply mk_name_lib|discriminate].
+Qed.
+
+Lemma choose_relativity_props n o rl :
+  (forall e, choose_relativity n o rl <> Internal e) /\ (forall e, choose_relativity n o rl = Lib e -> e <> iFuelZ).
+Proof.
+  unfold choose_relativity. destruct o as [[|x o']|]; [split; intros; discriminate| |split; intros; discriminate].
+  destruct rl.
+  - unfold relativize. destruct (is_subdomain n (x :: o')); [|split; intros; discriminate].
+    split; [intros; apply mk_name_never_internal|intros e; apply mk_name_lib].
+  - unfold derelativize, concatenate. destruct (negb (is_absolute n)); [|split; intros; discriminate].
+    destruct (is_absolute n && _); [split; intros e; [discriminate|intros H; inversion H; discriminate]|].
+    split; [intros; apply mk_name_never_internal|intros e; apply mk_name_lib].
+Qed.
+
+Lemma as_name_nf esc v o rl rto : NoFuel (as_name esc v o rl rto).
+Proof.
+  unfold as_name. apply nf_bind.
+  - apply lift_name_nf; [intros e; apply from_text_no_internal|intros e; apply from_text_lib].
+  - intros n _. destruct (choose_relativity_props n (match rto with Some o0 => Some o0 | None => o end) rl) as [H1 H2].
+    apply lift_name_nf; assumption.
+Qed.
+
+Lemma tok_unescape_nf_len : forall n s, (length s <= n)%nat -> NoFuel (tok_unescape s).
+Proof.
+  induction n as [|n IH]; intros s Hl.
+  - destruct s; [apply nf_ok|cbn in Hl; lia].
+  - destruct s as [|c r]; [apply nf_ok|]. cbn [tok_unescape].
+    destruct (c =? 92).
+    + destruct r as [|c1 r1]; [apply nf_lib|]. destruct (is_digit c1).
+      * destruct r1 as [|c2 [|c3 r3]]; try apply nf_lib.
+        destruct (is_digit c2 && is_digit c3); [|apply nf_lib].
+        destruct (_ >? 255); [apply nf_lib|]. apply nf_bind; [apply IH; cbn in *; lia|intros; apply nf_ok].
+      * apply nf_bind; [apply IH; cbn in *; lia|intros; apply nf_ok].
+    + apply nf_bind; [apply IH; cbn in *; lia|intros; apply nf_ok].
+Qed.
+
+Lemma tok_unescape_nf s : NoFuel (tok_unescape s).
+Proof. eapply tok_unescape_nf_len; eauto. Qed.
+
+Lemma unescape_all_nf : forall vs, NoFuel (unescape_all vs).
+Proof.
+  induction vs as [|v vs IH]; cbn [unescape_all]; [apply nf_ok|].
+  apply nf_bind; [apply tok_unescape_nf|intros]. apply nf_bind; [exact IH|intros; apply nf_ok].
+Qed.
+
+Lemma strs_go_nf : forall toks,
+  NoFuel ((fix go (l : list tok) : res (list (list Z)) :=
+             match l with
+             | [] => Ok []
+             | t :: l' => do b <- tok_unescape (tokval t);
+                          if zlen b >? 255 then Lib eSyntax else do rest <- go l'; Ok (b :: rest)
+             end) toks).
+Proof.
+  induction toks as [|t toks IH]; [apply nf_ok|].
+  apply nf_bind; [apply tok_unescape_nf|intros b _].
+  destruct (zlen b >? 255); [apply nf_lib|]. apply nf_bind; [exact IH|intros; apply nf_ok].
+Qed.
+
+Lemma parse_fields_nf : forall ks toks co rel zo, NoFuel (parse_fields ks toks co rel zo).
+Proof.
+  induction ks as [|k ks IH]; intros toks co rel zo; cbn [parse_fields].
+  - destruct toks; [apply nf_ok|apply nf_lib].
+  - destruct k.
+    + destruct toks as [|t toks']; [apply nf_lib|].
+      apply nf_bind; [|intros; apply nf_bind; [apply IH|intros; apply nf_ok]].
+      destruct t; [|apply nf_lib]. destruct (as_name _ _ _ _ _); [apply nf_ok|apply nf_lib|apply nf_lib].
+    + destruct toks as [|t toks']; [apply nf_lib|].
+      apply nf_bind; [|intros; apply nf_bind; [apply IH|intros; apply nf_ok]].
+      apply nf_bind; [apply tok_unescape_nf|intros]. destruct t; [apply nf_ok|apply nf_lib].
+    + destruct toks as [|t toks']; [apply nf_lib|].
+      apply nf_bind; [|intros; apply nf_bind; [apply IH|intros; apply nf_ok]].
+      destruct t; [|apply nf_lib]. apply nf_bind; [apply tok_unescape_nf|intros].
+      destruct (ipv4_ok _); [apply nf_ok|apply nf_lib].
+    + destruct toks as [|t toks']; [apply nf_lib|].
+      apply nf_bind; [|intros; apply nf_bind; [apply IH|intros; apply nf_ok]].
+      destruct t; [|apply nf_lib]. apply nf_bind; [apply tok_unescape_nf|intros].
+      destruct (_ && _); [apply nf_ok|apply nf_lib].
+    + destruct toks as [|t toks']; [apply nf_lib|].
+      apply nf_bind; [|intros; apply nf_bind; [apply IH|intros; apply nf_ok]].
+      destruct t; [|apply nf_lib]. apply nf_bind; [apply tok_unescape_nf|intros].
+      destruct (ttl_from_text _); [apply nf_ok|apply nf_lib|apply nf_lib].
+    + destruct toks as [|t toks']; [apply nf_lib|].
+      apply nf_bind; [|intros; apply nf_bind; [apply IH|intros; apply nf_ok]].
+      destruct (type_from_text _); [apply nf_ok|apply nf_lib].
+    + destruct toks as [|t toks']; [apply nf_lib|].
+      apply nf_bind; [exact (strs_go_nf (t :: toks'))|intros; apply nf_ok].
+    + destruct (all_ids toks) as [[|v vs]|]; try apply nf_lib; try apply nf_ok.
+      destruct allow_empty; [apply nf_ok|apply nf_lib].
+Qed.
+
+Lemma parse_generic_nf toks : NoFuel (parse_generic toks).
+Proof.
+  unfold parse_generic.
+  repeat first [ apply nf_ok | apply nf_lib
+               | lazymatch goal with |- NoFuel (bind _ _) => apply nf_bind; [first [apply tok_unescape_nf|apply unescape_all_nf]|intros ? ?] end
+               | lazymatch goal with |- NoFuel (match ?x with _ => _ end) => destruct x end ].
+Qed.
+
+Lemma parse_rdata_nf ty toks lerr co rel zo : NoFuel (parse_rdata ty toks lerr co rel zo).
+Proof.
+  unfold parse_rdata. destruct (tbl_by_code type_table ty) as [[m ks]|].
+  - assert (H : NoFuel (do rd <- parse_fields ks toks co rel zo; if lerr then Lib eSyntax else Ok rd)).
+    { apply nf_bind; [apply parse_fields_nf|intros]. destruct lerr; [apply nf_lib|apply nf_ok]. }
+    destruct toks as [|t tl]; [exact H|]. destruct t as [v|v]; [|exact H].
+    destruct v as [|c0 v]; [exact H|]. destruct c0 as [|p|p]; try exact H.
+    repeat (destruct p as [p|p|]; try exact H).
+    destruct v as [|c1 v]; [exact H|]. destruct c1 as [|p|p]; try exact H.
+    repeat (destruct p as [p|p|]; try exact H).
+    destruct v; [unfold NoFuel; discriminate|exact H].
+  - apply nf_bind; [apply parse_generic_nf|intros]. destruct lerr; [apply nf_lib|apply nf_ok].
+Qed.
+
+Lemma txn_add_nf zo rel z n ttl ty rd : NoFuel (txn_add zo rel z n ttl ty rd).
+Proof.
+  unfold txn_add. cbv zeta. destruct (_ && _ && _); [unfold NoFuel; discriminate|].
+  apply nf_bind; [|intros; apply nf_ok].
+  unfold cname_check. destruct (zfind z n) as [nd|]; [|apply nf_ok].
+  repeat lazymatch goal with
+         | |- NoFuel (match ?x with _ => _ end) => destruct x
+         end; first [apply nf_ok|apply nf_lib].
+Qed.
+
+Lemma get_ident_nf toks : NoFuel (get_ident toks).
+Proof. unfold get_ident. destruct toks as [|[v|v] r]; first [apply nf_ok|apply nf_lib]. Qed.
+
+Lemma rr_fields_nf c s co zo n toks lerr : NoFuel (rr_fields c s co zo n toks lerr).
+Proof.
+  unfold rr_fields.
+  repeat first [ apply nf_ok | apply nf_lib
+               | lazymatch goal with |- NoFuel (bind _ _) =>
+                   apply nf_bind; [first [apply get_ident_nf|apply parse_rdata_nf|apply txn_add_nf|idtac]|intros ? ?] end
+               | lazymatch goal with |- NoFuel (match ?x with _ => _ end) => destruct x end
+               | lazymatch goal with |- NoFuel (let '(_, _) := ?x in _) => destruct x end ].
+Qed.
+
+Ltac nf_auto :=
+  repeat first
+    [ apply nf_ok | apply nf_lib
+    | lazymatch goal with |- NoFuel (bind _ _) =>
+        apply nf_bind;
+        [first [apply get_ident_nf|apply parse_rdata_nf|apply txn_add_nf|apply as_name_nf|apply relativize_nf
+               |apply rr_fields_nf|apply grange_nf|idtac]|intros ? ?] end
+    | lazymatch goal with |- NoFuel (match ?x with _ => _ end) => destruct x end
+    | lazymatch goal with |- NoFuel (Internal ?k) => unfold NoFuel; try unfold k; discriminate end
+    | apply rr_fields_nf | apply relativize_nf | apply as_name_nf ].
+
+Lemma eol_ok_nf lerr s : NoFuel (eol_ok lerr s).
+Proof. unfold eol_ok. destruct lerr; [apply nf_lib|apply nf_ok]. Qed.
+
+Lemma rr_line_nf c s lead toks lerr : NoFuel (rr_line c s lead toks lerr).
+Proof. unfold rr_line. nf_auto; try apply eol_ok_nf. Qed.
+
+Lemma from_text_lift_nf v o : NoFuel (lift_name true (NameM.from_text v o)).
+Proof. apply lift_name_nf; [intros e; apply from_text_no_internal|intros e; apply from_text_lib]. Qed.
+
+Lemma gen_loop_nf c co zo lhs rhs lm rm ttl ty step : forall count i s,
+  NoFuel (gen_loop count i step c s co zo lhs rhs lm rm ttl ty).
+Proof.
+  induction count as [|k IH]; intros i s; cbn [gen_loop]; [apply nf_ok|].
+  destruct lm as [[[[lmod lneg] loff] lwidth] lbase]. destruct rm as [[[[rmod rneg] roff] rwidth] rbase].
+  cbv beta iota.
+  apply nf_bind; [apply from_text_lift_nf|intros nm _].
+  destruct (negb (is_subdomain nm zo)); [apply nf_ok|].
+  apply nf_bind; [destruct (c_rel c); [apply relativize_nf|apply nf_ok]|intros n _].
+  destruct (lex _ 0 MSkip []) as [[toks term] rest0].
+  apply nf_bind; [apply parse_rdata_nf|intros rd _].
+  apply nf_bind; [apply txn_add_nf|intros z' _]. apply IH.
+Qed.
+
+Lemma parse_modify_nf side : NoFuel (parse_modify side).
+Proof. unfold parse_modify. cbv zeta. destruct (negb _); [apply nf_lib|apply nf_ok]. Qed.
+
+Lemma generate_line_nf c s toks lerr : NoFuel (generate_line c s toks lerr).
+Proof.
+  unfold generate_line.
+  repeat first
+    [ apply nf_ok | apply nf_lib
+    | lazymatch goal with |- NoFuel (bind _ _) =>
+        apply nf_bind; [first [apply get_ident_nf|apply parse_modify_nf|apply gen_loop_nf|idtac]|intros ? ?] end
+    | lazymatch goal with |- NoFuel (match ?x with _ => _ end) => destruct x end
+    | lazymatch goal with |- NoFuel (Internal ?k) => unfold NoFuel; try unfold k; discriminate end ].
+Qed.
+
+Lemma process_line_nf c s lead toks lerr : NoFuel (process_line c s lead toks lerr).
+Proof.
+  unfold process_line. destruct lead; [apply rr_line_nf|].
+  destruct toks as [|t rest]; [apply eol_ok_nf|].
+  assert (Hrr : NoFuel (rr_line c s false (t :: rest) lerr)) by apply rr_line_nf.
+  destruct (tokval t) as [|c0 v0]; [exact Hrr|].
+  destruct c0 as [|p|p]; try exact Hrr.
+  repeat (destruct p as [p|p|]; try exact Hrr).
+  repeat first
+    [ apply nf_ok | apply nf_lib | apply eol_ok_nf | apply rr_line_nf
+    | lazymatch goal with |- NoFuel (bind _ _) =>
+        apply nf_bind; [first [apply get_ident_nf|apply generate_line_nf|apply as_name_nf|idtac]|intros ? ?] end
+    | lazymatch goal with |- NoFuel (match ?x with _ => _ end) => destruct x end
+    | lazymatch goal with |- NoFuel (Internal ?k) => unfold NoFuel; try unfold k; discriminate end ].
+Qed.
+
+(* with length text + 1 iterations the reader never answers "out of fuel" *)
+Theorem read_loop_fuel_sufficient_proof c f text s :
+  (length text < f)%nat -> read_loop f c s text <> Internal iFuelZ.
+Proof.
+  intros Hf H. destruct (read_loop_never_starves_proof c f text s Hf H) as (s' & lead & toks & lerr & Hp).
+  exact (process_line_nf c s' lead toks lerr Hp).
+Qed.
